@@ -184,6 +184,7 @@ BREAKING = [
     ('C02', 'sc3/synth/synthdef.py', "                frw.write_pascal_str(file, item.name)\n                frw.write_i32(file, item.index)", "                frw.write_i32(file, item.index)\n                frw.write_pascal_str(file, item.name)", 'name table entries written index first'),
     ('C02', 'sc3/synth/synthdef.py', "        self._topological_sort()\n        self._index_ugens()\n        # UGen.buildSynthDef", "        self._index_ugens()\n        self._topological_sort()\n        # UGen.buildSynthDef", 'units indexed before the final sort'),
     ('C02', 'sc3/synth/synthdef.py', "            arr[index] = value", "            arr[index - 1] = value", 'constants written one slot off'),
+    ('C15', 'sc3/base/stream.py', "        b = self.b.next(inval)\n        return self.selector(a, b)", "        b = self.b.next(inval)\n        return self.selector(b, a)", 'binary operator stream swaps its operands'),
 ]
 
 
